@@ -162,7 +162,7 @@ def run_canaries(res, names, extern_args):
         t = canary_text(res['text'], nm)
         if t is None:
             return nm, False, 'function not found in generated file'
-        path = os.path.join(CACHE, 'gen', '%s_canary_%s.rs' % (res['unit'], nm))
+        path = os.path.join(os.path.dirname(res['gen_path']), '%s_canary_%s_p%d.rs' % (res['unit'], nm, os.getpid()))
         with open(path, 'w') as f:
             f.write(t)
         mods = {(it.get('as') or it.get('rename') or it.get('fn')): it.get('module')
